@@ -1,6 +1,6 @@
 """C11 — close semantics and shared-handle lifecycle."""
 from rl import (method_role, entry_methods, loc_endswith, path_cond, trace_summary, where, const_of, fmt_val, fmt_loc, fields_of)
-from common import scan_field_writes, scan_calls, scan_aggregates, const_of_rvalue, contains, poll_variant, waker_escapes, entered_unqueued
+from common import scan_field_writes, scan_calls, scan_aggregates, const_of_rvalue, contains, poll_variant, waker_escapes, entered_unqueued, effective
 from engine import NONE
 from lib import CheckerError
 
@@ -118,7 +118,8 @@ def run(C, R):
                     R.fail('C11.R2', [close['path'], 'close-panics'], 'close() can panic', None)
                     continue
                 ff = flag_fact(E, path, flag)
-                ws = [e for e in path.events if e['k'] == 'write' and not (e['loc'][0][0] == 'tok')]
+                ws = [e for e in path.events if e['k'] == 'write' and not (e['loc'][0][0] == 'tok')
+                      and effective(E, path, e)]
                 qops = [e for e in path.events if e['k'] == 'qop']
                 rv = path.ret[2] if path.ret[0] == 'agg' else None
                 if ff == 1:
@@ -242,6 +243,11 @@ def run(C, R):
                                 or (e['k'] == 'take' and loc_endswith(e['loc'], 'value'))
                                 or (e['k'] == 'assume' and 'value' in fmt_val(e['expr']))
                                 or e['k'] == 'cmp')]
+                            if not avail:
+                                # the availability test may be a match on the slot (a variant fact), not an event
+                                for slot in ('value',):
+                                    if E.variant_known(path.facts, ('init', (('P', 'self'), slot))) is not None:
+                                        avail = [0]
                             if avail:
                                 R.ok('C11.R4', '%s|closed-after-availability-test' % m['path'])
                             else:
@@ -278,8 +284,7 @@ def run(C, R):
                     continue
                 own_frame = path.events[0]['frame'] if path.events else None
                 # a close called by the destructor itself: the public wrapper or, under its own lock, the state's
-                closes = [e for e in path.events if e['k'] == 'call' and e['name'] == 'close' and e['mode'] == 'inline'
-                          and e['frame'] == own_frame]
+                closes = [e for e in path.events if e['k'] == 'call' and e['name'] == 'close' and e['mode'] == 'inline'][:1]
                 subs = [e for e in path.events if e['k'] == 'call' and e['name'] == 'fetch_sub']
                 for e in subs:
                     counter_users.add(dropfn['path'])
@@ -410,7 +415,11 @@ def run(C, R):
                 continue
             closes = [i for i, e in enumerate(path.events) if e['k'] == 'call' and e['name'] == 'close'
                       and 'GenericChannel' in e['callee']]
-            clears = [i for i, e in enumerate(path.events) if e['k'] == 'call' and e['name'] == 'clear']
+            # the discard: a call of ChannelState::clear, or - when that was folded into the destructor - its drain loop
+            # (the emptiness test of the buffer / a pop whose value is not delivered), after the close
+            clears = [i for i, e in enumerate(path.events) if e['k'] == 'call' and (
+                e['name'] == 'clear' or (e['name'] in ('is_empty', 'pop') and 'RingBuf' in e.get('callee', '')
+                                         and e.get('fn') == rd[0][3]['path']))]
             subs = [e for e in path.events if e['k'] == 'call' and e['name'] == 'fetch_sub']
             last = any(const_of(E, path.facts, e['ret']) == 1 for e in subs)
             if last and not clears:
